@@ -248,16 +248,33 @@ struct NavRun {
                         if (o.err != 0 || o.used != used0) fail("raw.scalar_changed", fmt("get_raw on a scalar changed the parser (err=%s cursor %zu->%zu)", err_name(o.err), used0, o.used));
                     }
                 } else {
-                    size_t capn = cont ? n->tok_len + (size_t)(op.a % 3) : 8;
+                    size_t capn = 8; bool enough = true;
+                    if (cont) {
+                        switch (op.a % 8) {      // the writer may be (nearly) full: C04's contract then applies to the appended piece
+                            case 3: capn = 0; break; case 4: capn = 1; break; case 5: capn = n->tok_len - 1; break;
+                            case 6: capn = n->tok_len >= 2 ? n->tok_len - 2 : 0; break; case 7: capn = n->tok_len / 2; break;
+                            default: capn = n->tok_len + (size_t)(op.a % 8); break;
+                        }
+                        enough = capn >= n->tok_len;
+                    }
                     Outcome before = real(P_DEPTH);
                     size_t used0 = before.used;
                     Outcome o = real(P_TO_WRITER, (int64_t)capn);
-                    if (cont) {
+                    if (cont && enough) {
                         std::string want = "werr=NONE wbytes=" + to_hex(plan.doc.data() + n->tok, n->tok_len);
                         if (!o.ret) fail("towriter.result", "parser_to_writer returned false on an un-entered container");
                         else if (o.size_out != n->tok_len || o.text != want) fail("towriter.bytes", fmt("parser_to_writer appended %zu bytes (%s), container has %zu", o.size_out, o.text.c_str(), n->tok_len));
                         no_error(o, "to_writer");
                         if (!sink.failed() && o.used != n->end_off() + 1) fail("towriter.cursor", fmt("cursor at %zu after parser_to_writer, container ends at %zu", o.used, n->end_off()));
+                    } else if (cont) {
+                        // writer too small for the container: the piece does not fit (RANGE, counter keeps counting, nothing stored);
+                        // the parser has extracted the container all the same and continues behind it
+                        bump(res.cnt, "probe.towriter_into_full_writer");
+                        std::string want = "werr=RANGE wbytes="; for (size_t q = 0; q < capn; q++) want += "a5";
+                        if (o.ret) fail("towriter.full_true", fmt("parser_to_writer returned true although only %zu of %zu bytes fit", capn, n->tok_len));
+                        if (o.size_out != n->tok_len || o.text != want) fail("towriter.full_writer", fmt("writer with %zu free bytes, container of %zu bytes: counter=%zu %s (expected counter %zu, RANGE, nothing stored)", capn, n->tok_len, o.size_out, o.text.c_str(), n->tok_len));
+                        no_error(o, "to_writer");
+                        if (!sink.failed() && o.used != n->end_off() + 1) fail("towriter.cursor", fmt("cursor at %zu after parser_to_writer into a full writer, container ends at %zu", o.used, n->end_off()));
                     } else {
                         if (o.ret) fail("towriter.scalar_true", "parser_to_writer returned true on a scalar value");
                         if (o.err != 0 || o.used != used0 || o.size_out != 0 || o.text != "werr=NONE wbytes=") fail("towriter.scalar_changed", fmt("parser_to_writer on a scalar changed something (err=%s cursor %zu->%zu counter=%zu %s)", err_name(o.err), used0, o.used, o.size_out, o.text.c_str()));
@@ -371,7 +388,7 @@ Plan nav_generate(uint64_t base, const std::string &prop, uint64_t index, int ti
     unsigned cls = (unsigned)rd.below(100);
     k.max_nodes = cls < 40 ? 1 + (int)rd.below(6) : cls < 85 ? 4 + (int)rd.below(16) : 15 + (int)rd.below(tier ? 60 : 26);
     k.alphabet = (int)rd.below(3);
-    k.long_strings = rd.chance(1, 12) ? (rd.chance(1, 6) ? 2 : 1) : 0;
+    k.long_strings = rd.chance(1, 12) ? (rd.chance(1, 6) ? (rd.chance(1, 4) ? 3 : 2) : 1) : 0;
     k.p_container = 20 + (int)rd.below(45);
     k.p_empty = 10 + (int)rd.below(40);
     k.max_obj_depth = 1 + (int)rd.below(6);
@@ -428,7 +445,8 @@ Plan nav_generate(uint64_t base, const std::string &prop, uint64_t index, int ti
             static const int kinds[] = {0, 0, 0, 0, 1, 2, 2, 3, 4, 5, 6, 7};
             op.a = kinds[ro.below(12)];
             op.c = (int64_t)(ro.below(64) * 8) | (ro.chance(1, 2) ? 1 : 0) | (op.code == M_FIELD_ENS && ro.chance(1, 5) ? 2 : 0) | (ro.chance(1, 3) ? 4 : 0);
-        } else if (op.code == M_STREQ || op.code == M_TO_WRITER) op.a = (int64_t)ro.below(4);
+        } else if (op.code == M_STREQ) op.a = (int64_t)ro.below(4);
+        else if (op.code == M_TO_WRITER) op.a = (int64_t)ro.below(8);
         p.ops.push_back(op);
         g.apply(op);
     }
